@@ -150,7 +150,7 @@ theorem step_frozen (sp : Spec) (orc : String → Bool) (rk : String → Nat) (h
     (ha : admissibleB orc w e = true) : (step sp w e).tasks = w.tasks ∧ (step sp w e).wf = w.wf := by
   have hall := h.done hd
   cases e with
-  | stop t => simp [admissibleB] at ha
+  | stop t => rw [adm_not_stop] at ha; cases ha
   | start =>
     simp [step, completed_not_idle w.wf hd]
   | pause =>
@@ -198,11 +198,7 @@ theorem step_frozen (sp : Spec) (orc : String → Bool) (rk : String → Nat) (h
             · rename_i hns
               rcases rowOK_completed_state sp orc rk hsp r (h.rows r hrm) hrc with h1 | h1
               · rw [h1] at hns; simp at hns
-              · exfalso
-                have ha' : admissibleB orc w (.deliver (.rpcStartTask t false)) = true := ha
-                simp only [admissibleB, hc, Bool.not_true, Bool.false_or, hfr'] at ha'
-                rw [h1] at ha'
-                simp at ha'
+              · exact absurd h1 (adm_not_stale orc w t r ha (by simpa using hc) hfr')
       | rpcResult t ok =>
         simp only
         split
